@@ -205,6 +205,37 @@ def run(ctx):
                     record('norm', xd, {'got_norm2': n2, 'expected_norm2': w2})
         except Exception as e:
             record('sum/norm', xd, {'raised': '%s: %s' % (type(e).__name__, e)})
+        # ---- mixed real / complex block sets (first stored block real): conj and adjoint still conjugate every block
+        try:
+            xr = gen.rand_array(rng, sr, sym, chargemaps=cms, duals=dus, charge=x.charge, cplx=False, keep=1.0)
+            yc = gen.rand_array(rng, sr, sym, chargemaps=cms, duals=dus, charge=x.charge, cplx=True, keep=0.6)
+            if xr.blocks and yc.blocks:
+                first = next(iter(xr.blocks))
+                yc.blocks.pop(first, None)
+                zm = xr + yc
+                dz = gen.densify(zm)
+                ctx.count(3)
+                record('conj (mixed real/complex blocks)', {'symmetry': sym, 'x': describe(zm)}, dense_cmp(zm.conj(), np.conj(dz)))
+                record('dagger (mixed real/complex blocks)', {'symmetry': sym, 'x': describe(zm)}, dense_cmp(zm.dagger(), np.conj(dz).transpose()))
+                record('sr.conj (mixed real/complex blocks)', {'symmetry': sym, 'x': describe(zm)}, dense_cmp(sr.conj(zm), np.conj(dz)))
+                if yc.blocks:
+                    ctx.nontrivial(('mixed', sym, str(sorted(xr.blocks)), str(sorted(yc.blocks))))
+        except Exception as e:
+            raised['mixed'] = raised.get('mixed', 0) + 1
+        # ---- norms of arrays whose stored blocks are all exactly zero (dense norm 0)
+        try:
+            for nm, z0 in (('(x - x).norm()', x - x), ('(0 * x).norm()', x * 0), ('(x * (x - x)).norm()', x * (x - x))):
+                if not z0.blocks:
+                    continue
+                ctx.count()
+                v0 = z0.norm()
+                if not (float(np.real(v0)) == 0.0):
+                    record('norm of an all-zero array', {'symmetry': sym, 'x': describe(x)}, {'expression': nm, 'got': repr(v0), 'expected': 0.0})
+                v1 = sr.linalg.norm(z0)
+                if not (float(np.real(v1)) == 0.0):
+                    record('linalg.norm of an all-zero array', {'symmetry': sym, 'x': describe(x)}, {'expression': nm, 'got': repr(v1), 'expected': 0.0})
+        except Exception as e:
+            raised['zero_norm'] = raised.get('zero_norm', 0) + 1
         # ---- multiply_diagonal with a vector missing some charges
         axis = rng.randrange(nd)
         tab = x.indices[axis].chargemap
